@@ -233,9 +233,9 @@ func c02Func(i int, s fnSpec, specs []fnSpec) Stmt {
 }
 
 func c02Specs(idx int, prev []fnSpec, full bool) []fnSpec {
-	paramSets := [][]string{{}, {"x"}, {"x", "y"}}
+	paramSets := [][]string{{}, {"x"}, {"x", "y"}, {"y", "x"}}
 	nrets := []int{0, 1, 2}
-	writes := []string{"=", "++", "swap"}
+	writes := []string{"=", "++", "swap", "multi"}
 	if full {
 		paramSets = [][]string{{}, {"x"}, {"y"}, {"x", "y"}, {"y", "x"}}
 		nrets = []int{0, 1, 2, 3}
